@@ -54,7 +54,8 @@ def one_case(rng, tier):
     if rng.random() < 0.3:
         add({'op': 'map', 'f': 'inc'})
     for _ in range(rng.choice([1, 1, 1, 2])):
-        add({'op': rng.choice(['rate_limit', 'rate_limit', 'delay']), 'interval': rng.choice([0, 0.25, 0.5, 0.5, 1.0, 1.0, 2.0])})
+        add({'op': rng.choice(['rate_limit', 'rate_limit', 'delay']), 'interval': rng.choice([0, 0.25, 0.5, 0.5, 1.0, 1.0, 2.0]),
+             'ival_str': rng.random() < 0.25})        # '250ms' / '1s' instead of the number
         if rng.random() < 0.3:
             add({'op': 'map', 'f': 'ident'})
     g = aprogs.AGen(rng)
